@@ -81,6 +81,13 @@ pub trait Tx:
     fn dt_op(&self, _name: &str, _a: &[&str], _out: &mut String) -> bool {
         false
     }
+    /// reference construction: add constraints given by end point positions; false if impossible
+    fn ref_add_constraints(&mut self, cons: &[(Point2<Self::S>, Point2<Self::S>)]) -> bool {
+        cons.is_empty()
+    }
+    fn constraint_positions(&self) -> Vec<(Point2<Self::S>, Point2<Self::S>)> {
+        Vec::new()
+    }
 }
 
 impl<S: Sc, L: HintGenerator<S> + Clone> Tx for Dt<S, L> {
@@ -169,6 +176,27 @@ impl<S: Sc, L: HintGenerator<S> + Clone> Tx for Cdt<S, L> {
     }
     fn load_cdt(v: Vec<VD<S>>, e: Vec<[usize; 2]>, stable: bool) -> Option<Result<Self, InsertionError>> {
         Some(if stable { Self::bulk_load_cdt_stable(v, e) } else { Self::bulk_load_cdt(v, e) })
+    }
+    fn ref_add_constraints(&mut self, cons: &[(Point2<S>, Point2<S>)]) -> bool {
+        for (p, q) in cons {
+            let a = self.vertices().find(|v| v.position() == *p).map(|v| v.fix());
+            let b = self.vertices().find(|v| v.position() == *q).map(|v| v.fix());
+            match (a, b) {
+                (Some(a), Some(b)) => {
+                    if a != b {
+                        if !self.can_add_constraint(a, b) {
+                            return false;
+                        }
+                        self.add_constraint(a, b);
+                    }
+                }
+                _ => return false,
+            }
+        }
+        true
+    }
+    fn constraint_positions(&self) -> Vec<(Point2<S>, Point2<S>)> {
+        self.undirected_edges().filter(|e| e.is_constraint_edge()).map(|e| { let [a, b] = e.positions(); (a, b) }).collect()
     }
     fn cdt_op(&mut self, name: &str, a: &[&str], out: &mut String) -> bool {
         let two = |t: &Self, out: &mut String| -> Option<(FixedVertexHandle, FixedVertexHandle)> {
@@ -355,6 +383,53 @@ fn dump_voronoi<T: Tx>(t: &T, out: &mut String) {
     out.push('\n');
 }
 
+
+// ------------------------------------------------------------------ incremental reference (C10, C11)
+/// Builds a fresh triangulation by inserting `verts` one by one (and adding `cons` as constraints, by position)
+/// and prints its edge set and constraint set mapped to the vertex indices of `t` (matching by position):
+/// `Q <n_edges> (u v)* <n_constraints> (u v)*`; `Q -1` if the reference could not be built.
+pub fn reference_line<T: Tx>(t: &T, verts: &[VD<T::S>], cons: &[(Point2<T::S>, Point2<T::S>)], out: &mut String) {
+    let r = std::panic::catch_unwind(std::panic::AssertUnwindSafe(|| {
+        let mut rt = T::default();
+        for v in verts {
+            if rt.insert(*v).is_err() {
+                return None;
+            }
+        }
+        if !rt.ref_add_constraints(cons) {
+            return None;
+        }
+        let idx = |p: Point2<T::S>| -> Option<usize> {
+            t.vertices().find(|v| v.position() == p).map(|v| v.fix().index())
+        };
+        let mut es = Vec::new();
+        let mut cs = Vec::new();
+        for e in rt.undirected_edges() {
+            let [a, b] = e.vertices();
+            let (ia, ib) = (idx(a.position())?, idx(b.position())?);
+            es.push((ia, ib));
+            if rt.flag(e.fix()) {
+                cs.push((ia, ib));
+            }
+        }
+        Some((es, cs))
+    }));
+    match r {
+        Ok(Some((es, cs))) => {
+            let _ = write!(out, "Q {}", es.len());
+            for (a, b) in &es {
+                let _ = write!(out, " {} {}", a, b);
+            }
+            let _ = write!(out, " {}", cs.len());
+            for (a, b) in &cs {
+                let _ = write!(out, " {} {}", a, b);
+            }
+            out.push('\n');
+        }
+        _ => out.push_str("Q -1\n"),
+    }
+}
+
 // ------------------------------------------------------------------ state dump
 pub fn dump_state<T: Tx>(t: &T, out: &mut String) {
     let nv = t.num_vertices();
@@ -452,12 +527,42 @@ pub fn exec_op<T: Tx>(t: &mut T, k: usize, toks: &[&str], out: &mut String) {
                 }
             }
         }
+        "insmid" => {
+            // insmid eK d : insert the midpoint of undirected edge K (constraint edges preferred when K is odd);
+            // echoed as an ordinary `ins x y d` so that the checker treats it as such
+            let n = t.num_undirected_edges();
+            if n == 0 {
+                out.clear();
+                let _ = write!(out, "O {} ins -\nR skip\n", k);
+            } else {
+                let kk: usize = a[0][1..].parse().unwrap();
+                let all: Vec<_> = t.fixed_undirected_edges().collect();
+                let cons: Vec<_> = all.iter().copied().filter(|e| t.flag(*e)).collect();
+                let e = if kk % 2 == 1 && !cons.is_empty() { cons[(kk / 2) % cons.len()] } else { all[kk % n] };
+                let [p0, p1] = t.undirected_edge(e).positions();
+                let two = T::S::of_f64(2.0);
+                let m = Point2::new((p0.x + p1.x) / two, (p0.y + p1.y) / two);
+                out.clear();
+                let _ = writeln!(out, "O {} ins {} {} {}", k, bits(m.x), bits(m.y), a[1]);
+                match t.insert(VD { p: m, d: a[1].parse().unwrap() }) {
+                    Ok(v) => {
+                        let _ = writeln!(out, "R ok {}", v.index());
+                    }
+                    Err(e) => {
+                        let _ = writeln!(out, "R err {}", err_name(e));
+                    }
+                }
+            }
+        }
         "rm" | "trm" => match vsel(t, a[0]) {
             None => out.push_str(" -\nR skip\n"),
             Some(v) => {
                 let _ = writeln!(out, " V{}", v.index());
                 let r = if name == "rm" { t.inherent_remove(v) } else { Triangulation::remove(t, v) };
                 let _ = writeln!(out, "R {} {} {}", bits(r.p.x), bits(r.p.y), r.d);
+                let verts: Vec<VD<T::S>> = t.vertices().map(|v| *v.data()).collect();
+                let cons = t.constraint_positions();
+                reference_line(t, &verts, &cons, out);
             }
         },
         "lrm" => {
@@ -484,10 +589,11 @@ pub fn exec_op<T: Tx>(t: &mut T, k: usize, toks: &[&str], out: &mut String) {
             let _ = writeln!(out, " {}", a.join(" "));
             let n: usize = a[0].parse().unwrap();
             let vs: Vec<VD<T::S>> = (0..n).map(|i| vd(a[1 + 3 * i], a[2 + 3 * i], a[3 + 3 * i])).collect();
-            match T::load(vs, name == "bulks") {
+            match T::load(vs.clone(), name == "bulks") {
                 Ok(nt) => {
                     *t = nt;
                     out.push_str("R ok\n");
+                    reference_line(t, &vs, &[], out);
                 }
                 Err(e) => {
                     let _ = writeln!(out, "R err {}", err_name(e));
@@ -502,10 +608,13 @@ pub fn exec_op<T: Tx>(t: &mut T, k: usize, toks: &[&str], out: &mut String) {
             let es: Vec<[usize; 2]> = (0..m)
                 .map(|i| [a[2 + 3 * n + 2 * i].parse().unwrap(), a[3 + 3 * n + 2 * i].parse().unwrap()])
                 .collect();
-            match T::load_cdt(vs, es, name == "bulkcs") {
+            let cons: Vec<(Point2<T::S>, Point2<T::S>)> =
+                es.iter().filter(|e| e[0] < vs.len() && e[1] < vs.len()).map(|e| (vs[e[0]].p, vs[e[1]].p)).collect();
+            match T::load_cdt(vs.clone(), es, name == "bulkcs") {
                 Some(Ok(nt)) => {
                     *t = nt;
                     out.push_str("R ok\n");
+                    reference_line(t, &vs, &cons, out);
                 }
                 Some(Err(e)) => {
                     let _ = writeln!(out, "R err {}", err_name(e));
